@@ -68,6 +68,9 @@ pub struct RecvObs {
 /// Feed `bytes` (descriptors with the first segment) to a receiver running in its own thread
 /// according to `plan`. `recv_fd` is the receiver's socket (for SIOCINQ), `peer_fd` ours.
 /// `pre_read`: first consume one request message from the peer side (API-call receivers).
+/// CPU ticks burnt by a receiver that kept running after its stream had ended (0 = none seen).
+static SPINNING: std::sync::atomic::AtomicU64 = std::sync::atomic::AtomicU64::new(0);
+
 fn feed<R: Send + 'static>(
     recv_fd: RawFd,
     peer_fd: RawFd,
@@ -114,13 +117,21 @@ fn feed<R: Send + 'static>(
     if plan.truncate_at.is_some() {
         sys::wait_until(5000, || sys::inq(recv_fd) == 0 || done.load(Ordering::SeqCst));
         unsafe { libc::shutdown(peer_fd, libc::SHUT_WR) };
-        // after end-of-stream the receiver must return; parked in recvmsg now = blocked forever
-        let returned = sys::wait_until(10_000, || done.load(Ordering::SeqCst));
-        if !returned {
-            let t = tid.load(Ordering::SeqCst);
+        // after end-of-stream the receiver must return; parked in recvmsg now = blocked forever;
+        // burning CPU without returning = spinning on the ended stream
+        let t = tid.load(Ordering::SeqCst);
+        let base = sys::thread_cpu_ticks(t);
+        let returned = sys::wait_until(10_000, || done.load(Ordering::SeqCst) || sys::thread_cpu_ticks(t).saturating_sub(base) >= sys::SPIN_TICKS);
+        if !returned || !done.load(Ordering::SeqCst) {
             blocked = t > 0 && sys::parked_in(t, &[sys::SYS_RECVMSG]);
+            let burnt = sys::thread_cpu_ticks(t).saturating_sub(base);
             unsafe { libc::shutdown(peer_fd, libc::SHUT_RDWR) };
             unsafe { libc::shutdown(recv_fd, libc::SHUT_RDWR) };
+            if !blocked && burnt >= sys::SPIN_TICKS && !sys::wait_until(200, || done.load(Ordering::SeqCst)) {
+                // cannot be joined: leave the thread behind, the caller reports and ends the process
+                SPINNING.store(burnt, Ordering::SeqCst);
+                return (None, true);
+            }
         }
     } else if !sys::wait_until(10_000, || done.load(Ordering::SeqCst)) {
         // a complete message was delivered and the receiver still waits: unblock and report
@@ -367,7 +378,10 @@ fn judge_recv(cfg: &Cfg, who: &str, what: &str, len: usize, run: &dyn Fn(&Plan) 
         report::distinct_str(&format!("{who}:{what}:{}:{:?}", p.id(), p.cuts));
         let is_err = o.err_kind.contains("Err") || o.err_kind.contains("ok=false");
         let clean = o.err_kind.contains("Disconnected");
-        let sig = if o.blocked_after_close || !o.returned {
+        let spun = SPINNING.load(Ordering::SeqCst);
+        let sig = if spun > 0 {
+            Some("spins-after-end-of-stream")
+        } else if o.blocked_after_close || !o.returned {
             Some("blocks-after-end-of-stream")
         } else if !is_err {
             Some("truncated-message-accepted")
@@ -384,6 +398,10 @@ fn judge_recv(cfg: &Cfg, who: &str, what: &str, len: usize, run: &dyn Fn(&Plan) 
                 jo! {"receiver" => who, "message" => what, "length" => len, "cut_offset" => t, "cuts_before" => p.cuts.iter().map(|c| *c as u64).collect::<Vec<u64>>(), "observed" => o.text.as_str(), "blocked" => o.blocked_after_close},
                 cfg.replay(case),
             );
+            if spun > 0 {
+                // a thread is still burning a core inside the library: nothing more can be decided here
+                std::process::exit(report::finish());
+            }
             break;
         }
     }
